@@ -92,8 +92,17 @@ def run(tier, seed):
         names = sorted({x["n"] for x in m["instrs"]})
         ctx.violation({"len": len(m["instrs"]), "ghost_involved": any(n.startswith("ghost") for n in names)}, m["symptom"],
                       {"instrs": m["instrs"], "src": inp[m["id"]]["src"], "bad": m["bad"][:6]})
-    ctx.cov["evaluations"] = sum(len(t["obs"]) for t in trace)
-    ctx.cov["traces_validated_against_impl"] = ok
+    # the third place member instructions stand: in front of the child fields of a parameterised #[parent(..)], where the ownership-specific pair
+    # [owned_into(..)] [ref_into(..)] (item `kexpr`) makes the chosen instruction observable in executed conversions (into_existing must fall back
+    # on the `into` instruction of ITS ownership); the parent stream is shared with C03 / C07 / C08
+    from checks import parent_stream as ps
+    pcases, pobs, pfail, pstats = ps.run_stream(ctx, tier)
+    keep = {i for i, c in enumerate(pcases) if "kexpr" in c["bit"]}
+    precs = [r for r in ps.records(pcases, pobs, pfail, {"leaf"}) if r["case"] in keep]
+    pok = ps.judge_into(ctx, pcases, precs, "c05-parent")
+    ctx.cov["parent_child_field_evaluations"] = len(precs)
+    ctx.cov["evaluations"] = sum(len(t["obs"]) for t in trace) + len(precs)
+    ctx.cov["traces_validated_against_impl"] = ok + pok
     ctx.cov["instruction_lists"] = len(cases)
     ctx.cov["distinct_nontrivial"] = len([c for c in cases if c])
     ctx.cov["rule"] = ("TLC enumerates every list of <= MaxLen member instructions over (21 mapping names + ghost/ghost_owned/ghost_ref) x {default, A, B} "
